@@ -3301,7 +3301,8 @@ spmatrix_subscr(spmatrix* self, PyObject* args)
     }
 
     for (colcnt=0; colcnt<collgt; colcnt++) {
-      j = (Jl ? MAT_BUFI(Jl)[colcnt] : colstart + colcnt*colstep);
+      j = (Jl ? CWRAP(MAT_BUFI(Jl)[colcnt], SP_NCOLS(self)) :
+          colstart + colcnt*colstep);
 
       if (rowstart == 0 && rowstop == SP_NROWS(self) && rowstep == 1) {
         /* copy entire column */
@@ -3359,7 +3360,8 @@ spmatrix_subscr(spmatrix* self, PyObject* args)
     A->colptr = colptr;
 
     for (colcnt=0; colcnt<collgt; colcnt++) {
-      j = (Jl ? MAT_BUFI(Jl)[colcnt] : colstart + colcnt*colstep);
+      j = (Jl ? CWRAP(MAT_BUFI(Jl)[colcnt], SP_NCOLS(self)) :
+          colstart + colcnt*colstep);
 
       if (rowstart == 0 && rowstop == SP_NROWS(self) && rowstep == 1) {
         /* copy entire column */
